@@ -43,36 +43,47 @@ def check(src, rep):
                        "layout names fields through obis_name_map; manufacturer 'Kaifa'; frame and body share grammars/normalisers and the dispatch on the body type matches. "
                        "NOT decided: the float lemma and acceptance of every well-formed list.")
     # ---------------------------------------------------------------- R1 layouts
+    from sa.decoders import normaliser_workers as _nw
+    _ws = _nw(M, MOD)
+    _fnv = next((f for f in _ws if any(isinstance(n, ast.Attribute) and n.attr == "index" for n in ast.walk(f.node))), None)
+    LISTS = None
+    if _fnv is not None:
+        for n in ast.walk(_fnv.node):
+            if isinstance(n, ast.GeneratorExp) and isinstance(n.generators[0].iter, ast.Name):
+                LISTS = n.generators[0].iter.id
+    rep.require(LISTS is not None, "cannot find the table of positional layouts consulted by the positional normaliser")
     try:
-        lists = ce.module_value(MOD, "_field_order_lists")
+        lists = ce.module_value(MOD, LISTS)
     except NotConstant as e:
-        raise Undecided(f"kaifa._field_order_lists is not a constant: {e}")
+        raise Undecided(f"kaifa.{LISTS} is not a constant: {e}")
     bad = 0
     got = {}
     for l in lists:
         if len(l) in got:
             bad += 1
-            rep.violation("R1", "kaifa._field_order_lists", f"duplicate-length:{len(l)}", "two positional layouts have the same length (selection by length is ambiguous)", file, 1)
+            rep.violation("R1", f"kaifa.{LISTS}", f"duplicate-length:{len(l)}", "two positional layouts have the same length (selection by length is ambiguous)", file, 1)
         got[len(l)] = list(l)
     for n, want in LAYOUTS.items():
         if n not in got:
             bad += 1
-            rep.violation("R1", "kaifa._field_order_lists", f"layout:{n}", f"the documented {n}-element layout is missing", file, 1)
+            rep.violation("R1", f"kaifa.{LISTS}", f"layout:{n}", f"the documented {n}-element layout is missing", file, 1)
         elif got[n] != want:
             i = next(k for k in range(n) if got[n][k] != want[k])
             bad += 1
-            rep.violation("R1", "kaifa._field_order_lists", f"layout:{n}", f"the {n}-element layout differs from the documented order at position {i}: {got[n][i]!r} instead of {want[i]!r}", file, 1,
+            rep.violation("R1", f"kaifa.{LISTS}", f"layout:{n}", f"the {n}-element layout differs from the documented order at position {i}: {got[n][i]!r} instead of {want[i]!r}", file, 1,
                           witness=str(got[n]))
     for n in got:
         if n not in LAYOUTS:
             bad += 1
-            rep.violation("R1", "kaifa._field_order_lists", f"layout:{n}", f"an undocumented {n}-element layout is accepted", file, 1)
+            rep.violation("R1", f"kaifa.{LISTS}", f"layout:{n}", f"an undocumented {n}-element layout is accepted", file, 1)
     if not bad:
         rep.ok("R1", "positional layouts", "five lists of 1, 9, 13, 14, 18 names equal the documented layouts (E-CONST evaluation of the slicing/concatenation)")
     rep.count("layouts", len(got))
-    fnv = M.funcs.get("kaifa._normalize_parsed_value_elements")
-    fno = M.funcs.get("kaifa._normalize_parsed_obis_elements")
-    rep.require(fnv is not None and fno is not None, "anchor vanished: kaifa normalisers")
+    from sa.decoders import normaliser_workers
+    ws = normaliser_workers(M, MOD)
+    fnv = next((f for f in ws if any(isinstance(n, ast.Attribute) and n.attr == "index" for n in ast.walk(f.node))), None)
+    fno = next((f for f in ws if f is not fnv and any(isinstance(n, ast.Attribute) and n.attr == "obis" for n in ast.walk(f.node))), None)
+    rep.require(fnv is not None and fno is not None, f"cannot find the positional and the OBIS-tagged normaliser from the public normalize_* functions (found {[w.name for w in ws]})")
     # selection by length
     sel = None
     for n in ast.walk(fnv.node):
@@ -82,13 +93,13 @@ def check(src, rep):
     if sel is not None:
         g = sel.args[0]
         gen = g.generators[0]
-        if isinstance(gen.iter, ast.Name) and gen.iter.id == "_field_order_lists" and len(gen.ifs) == 1 and isinstance(gen.ifs[0], ast.Compare) and isinstance(gen.ifs[0].ops[0], ast.Eq):
+        if isinstance(gen.iter, ast.Name) and gen.iter.id == LISTS and len(gen.ifs) == 1 and isinstance(gen.ifs[0], ast.Compare) and isinstance(gen.ifs[0].ops[0], ast.Eq):
             sides = {ast.unparse(gen.ifs[0].left), ast.unparse(gen.ifs[0].comparators[0])}
             oks = sides == {f"len({gen.target.id})", "len(list_items)"} and isinstance(g.elt, ast.Name) and g.elt.id == gen.target.id
     if oks:
         rep.ok("R1", "layout selection", "the layout whose length equals the number of list items")
     else:
-        rep.violation("R1", "kaifa._normalize_parsed_value_elements", "layout-selection", "the positional layout is not selected by len(layout) == len(list items)", file, fnv.node.lineno)
+        rep.violation("R1", f"kaifa.{fnv.name}", "layout-selection", "the positional layout is not selected by len(layout) == len(list items)", file, fnv.node.lineno)
     m = w.module(MOD)
     ve = m.env.get("NotificationBodyValueElements")
     rep.require(isinstance(ve, N), "kaifa.NotificationBodyValueElements not extracted")
@@ -102,8 +113,12 @@ def check(src, rep):
     else:
         rep.violation("R1", "kaifa.NotificationBodyValueElements", "element-index", "an element's position is not its array index", file, ve.line or 1)
     # ---------------------------------------------------------------- R2/R3: value normaliser, per layout x position
+    SCAL = None
+    for n in ast.walk(fnv.node):
+        if isinstance(n, ast.Call) and isinstance(n.func, ast.Attribute) and n.func.attr == "get" and isinstance(n.func.value, ast.Name):
+            SCAL = n.func.value.id
     try:
-        table = ce.module_value(MOD, "_FIELD_SCALING")
+        table = ce.module_value(MOD, SCAL) if SCAL else None
     except NotConstant:
         table = None
     modenv = {}
@@ -164,17 +179,17 @@ def check(src, rep):
                     k = None
                 if k != name and badv < 4:
                     badv += 1
-                    rep.violation("R1", "kaifa._normalize_parsed_value_elements", f"field-name:{n}:{pos}", f"position {pos} of the {n}-element list is stored under {k!r} instead of {name!r}", file, line)
+                    rep.violation("R1", f"kaifa.{fnv.name}", f"field-name:{n}:{pos}", f"position {pos} of the {n}-element list is stored under {k!r} instead of {name!r}", file, line)
                 vsv = ("f0", item, "value")
                 if name == "meter_datetime":
                     if value != ("f0", vsv, "datetime") and badv < 4:
                         badv += 1
-                        rep.violation("R4", "kaifa._normalize_parsed_value_elements", "list-clock", "the list's own clock element is not stored as the decoded datetime", file, line, witness=show_sv(value)[:80])
+                        rep.violation("R4", f"kaifa.{fnv.name}", "list-clock", "the list's own clock element is not stored as the decoded datetime", file, line, witness=show_sv(value)[:80])
                     continue
                 if kinds.get("int") is False:
                     if value != vsv and badv < 4:
                         badv += 1
-                        rep.violation("R5", "kaifa._normalize_parsed_value_elements", "text-not-verbatim", "a non-integer value is transformed before it is stored", file, line)
+                        rep.violation("R5", f"kaifa.{fnv.name}", "text-not-verbatim", "a non-integer value is transformed before it is stored", file, line)
                     continue
                 # integer value: find the exponent used
                 s_used = _scale_used(value, vsv, env)
@@ -184,18 +199,18 @@ def check(src, rep):
                 kind, s_val = s_used
                 if (want_s or 0) != (s_val or 0) and badv < 4:
                     badv += 1
-                    rep.violation("R2", "kaifa._normalize_parsed_value_elements", f"scaling:{name}", f"field {name!r} (position {pos} of the {n}-element list) is scaled by 10^{s_val or 0} instead of 10^{want_s or 0}",
+                    rep.violation("R2", f"kaifa.{fnv.name}", f"scaling:{name}", f"field {name!r} (position {pos} of the {n}-element list) is scaled by 10^{s_val or 0} instead of 10^{want_s or 0}",
                                   file, line, witness=f"layout {n}, position {pos}")
                 elif want_s and kind not in ("round-mult", "div", "decimal") and badv < 4:
                     badv += 1
-                    rep.violation("R3", "kaifa._normalize_parsed_value_elements", f"inexact:{name}", "a negative power of ten is applied by multiplication without rounding to the exponent's number of digits "
+                    rep.violation("R3", f"kaifa.{fnv.name}", f"inexact:{name}", "a negative power of ten is applied by multiplication without rounding to the exponent's number of digits "
                                   "(binary approximation of 10^-n, or digits lost)", file, line, witness=show_sv(value)[:100])
     rep.count("layout_cells", cells)
     if not badv and cells:
         rep.ok("R2", f"{cells} layout x position cells", "each position is stored under its documented name; currents scaled 10^-3, voltages 10^-1, everything else unscaled")
         rep.ok("R3", "scaling idiom", "round(v * 10**s, abs(s)) on integers only (exact for 32-bit registers by the float lemma); other values stored as parsed")
     if table is not None and table != SCALE:
-        rep.violation("R2", "kaifa._FIELD_SCALING", "scaling-table", "the scaling table differs from currents -3 / voltages -1 / nothing else", file, 1, witness=str(table))
+        rep.violation("R2", f"kaifa.{SCAL}", "scaling-table", "the scaling table differs from currents -3 / voltages -1 / nothing else", file, 1, witness=str(table))
     # ---------------------------------------------------------------- OBIS normaliser
     node2, ps2 = loop_body_paths(Engine(M), fno)
     item2 = ("iter", ("g", "list_items"), node2.lineno)
@@ -216,7 +231,7 @@ def check(src, rep):
         nv = naming_verdict(key, p.guards, item2)
         if nv:
             bado += 1
-            rep.violation("R5", "kaifa._normalize_parsed_obis_elements", "naming", nv, file, line)
+            rep.violation("R5", f"kaifa.{fno.name}", "naming", nv, file, line)
     # scale per known name
     vsv2 = ("f0", item2, "value")
     for code, name in sorted(onm.items()):
@@ -248,10 +263,10 @@ def check(src, rep):
             want_s = SCALE.get(name)
             if (want_s or 0) != (s_val or 0):
                 bado += 1
-                rep.violation("R2", "kaifa._normalize_parsed_obis_elements", f"scaling:{name}", f"field {name!r} is scaled by 10^{s_val or 0} instead of 10^{want_s or 0} in the OBIS-tagged layout", file, line)
+                rep.violation("R2", f"kaifa.{fno.name}", f"scaling:{name}", f"field {name!r} is scaled by 10^{s_val or 0} instead of 10^{want_s or 0} in the OBIS-tagged layout", file, line)
             elif want_s and kind not in ("round-mult", "div", "decimal"):
                 bado += 1
-                rep.violation("R3", "kaifa._normalize_parsed_obis_elements", f"inexact:{name}", "a negative power of ten is applied by multiplication without rounding", file, line)
+                rep.violation("R3", f"kaifa.{fno.name}", f"inexact:{name}", "a negative power of ten is applied by multiplication without rounding", file, line)
     if not bado and n2:
         rep.ok("R5", f"OBIS-tagged layout ({n2} paths)", "names through obis_name_map with membership test; same scaling table and idiom as the positional layout; clock element stored as datetime")
     # ---------------------------------------------------------------- R4 clock precedence
@@ -266,14 +281,14 @@ def check(src, rep):
                 if isinstance(n, ast.Assign) and isinstance(n.targets[0], ast.Subscript) and "METER_DATETIME" in ast.unparse(n.targets[0]):
                     late_names.add(n.lineno)
     if after or late_names:
-        rep.violation("R4", "kaifa._normalize_parsed_value_elements", "clock-precedence", "the APDU date-time is written after the element loop, so it overrides the list's own clock element", file,
+        rep.violation("R4", f"kaifa.{fnv.name}", "clock-precedence", "the APDU date-time is written after the element loop, so it overrides the list's own clock element", file,
                       (body[after[0]].lineno if after else min(late_names)))
     elif apdu:
         # guarded by the presence of the frame wrapper
         guarded = all(any(isinstance(a, ast.If) and "information" in ast.unparse(a.test) for a in _ancestors(fnv.node, s)) or isinstance(s, ast.If) for i, s in apdu)
         rep.ok("R4", "clock precedence", "the APDU date-time is stored before the element loop (the list's clock element, written in the loop, wins); only when the frame wrapper is present")
     else:
-        rep.violation("R4", "kaifa._normalize_parsed_value_elements", "apdu-clock-missing", "frames in the positional layout never get the APDU date-time as meter clock", file, fnv.node.lineno)
+        rep.violation("R4", f"kaifa.{fnv.name}", "apdu-clock-missing", "frames in the positional layout never get the APDU date-time as meter clock", file, fnv.node.lineno)
     # ---------------------------------------------------------------- R5 rest: manufacturer, dispatch, shared grammars, wire types
     for fn in (fnv, fno):
         okm = any(isinstance(d, ast.Dict) and any(isinstance(v, ast.Constant) and v.value == "Kaifa" for v in d.values) for d in ast.walk(fn.node))
@@ -289,9 +304,9 @@ def check(src, rep):
         for n in ast.walk(fn.node):
             if isinstance(n, ast.If) and isinstance(n.test, ast.Compare):
                 t = ast.unparse(n.test)
-                call = [ast.unparse(c.func) for c in ast.walk(n) if isinstance(c, ast.Call) and "normalize" in ast.unparse(c.func)]
+                call = [ast.unparse(c.func) for c in ast.walk(n) if isinstance(c, ast.Call) and ast.unparse(c.func) in (fnv.name, fno.name)]
                 pairs.append((t.split(".")[-1], call[0] if call else None))
-        want = {("VALUE_ELEMENTS", "_normalize_parsed_value_elements"), ("OBIS_ELEMENTS", "_normalize_parsed_obis_elements")}
+        want = {("VALUE_ELEMENTS", fnv.name), ("OBIS_ELEMENTS", fno.name)}
         if set(pairs) != want:
             disp_ok = False
             rep.violation("R5", f"kaifa.{fname}", "dispatch", "the body type is not dispatched to its own normaliser", file, fn.node.lineno, witness=str(pairs))
